@@ -60,11 +60,24 @@ func (e *c12ex) Exec(op string) string {
 		e.tx = e.b.NewTxCacheStub("t0")
 	}
 	switch w[0] {
+	case "fault":
+		// the next read of this key that reaches the ledger fails (a peer-side error)
+		if e.l.FailGet == nil {
+			e.l.FailGet = map[string]int{}
+		}
+		e.l.FailGet[arg(1)]++
+		return "ok"
 	case "tget":
-		v, _ := e.tx.GetState(arg(1))
+		v, err := e.tx.GetState(arg(1))
+		if err != nil {
+			return "err"
+		}
 		return "v:" + trace.Enc(string(v))
 	case "bget":
-		v, _ := e.b.GetState(arg(1))
+		v, err := e.b.GetState(arg(1))
+		if err != nil {
+			return "err"
+		}
 		return "v:" + trace.Enc(string(v))
 	case "tput":
 		e.nontrivial = true
@@ -160,6 +173,27 @@ func genC12(c *Cfg, emit func([]string)) {
 	for _, ini := range []string{"-", "ka=L"} {
 		rec1(ini, nil)
 	}
+	// a failed ledger read is reported to the caller and remembered by nobody: every sequence of 4
+	// (thorough 5) ops on one key with one injected read fault somewhere
+	alphaF := []string{"tget ka", "bget ka", "tput ka a", "tdel ka", "tcommit", "tdiscard", "fault ka"}
+	depthF := 4
+	if c.Thorough() {
+		depthF = 5
+	}
+	var recF func(ini string, prefix []string)
+	recF = func(ini string, prefix []string) {
+		if len(prefix) == depthF {
+			h := append([]string{"reset " + ini, "tx"}, prefix...)
+			emit(append(h, "tget ka", "tget ka", "bcommit"))
+			return
+		}
+		for _, o := range alphaF {
+			recF(ini, append(prefix[:len(prefix):len(prefix)], o))
+		}
+	}
+	for _, ini := range []string{"-", "ka=L"} {
+		recF(ini, nil)
+	}
 	keys5 := []string{"ka", "kb", "kc", "kd", "ke"}
 	alpha5 := c12alphabet(keys5, []string{"", "a", "b", "cc"})
 	for _, k := range keys5 {
@@ -185,10 +219,13 @@ func genC12(c *Cfg, emit func([]string)) {
 			if len(f) > 1 {
 				prevKey = f[1]
 			}
+			if c.Rng.Intn(25) == 0 && len(f) > 1 {
+				h = append(h, "fault "+f[1])
+			}
 			h = append(h, o)
 		}
 		emit(append(h, "bcommit"))
 	}
-	c.Rule = fmt.Sprintf("all op sequences of length <= %d over {tget,tdel,bget,bdel,tput,bput}x{ka,kb}x{'',a,L} + tcommit/tdiscard from 3 initial ledgers (this part exhaustive), all sequences of exactly %d transaction-level ops on one key over {read, delete, put '', put a, put the ledger's own value, batch-level read, commit, discard} from 2 initial ledgers (exhaustive), plus %d random sequences (4..17 ops, 5 keys, 1/3 of ops revisit the previous key); each history ends with the batch commit and a ledger dump; non-trivial = contains a write; distinct = distinct sha256 of op+output text", maxLen, depth1, nRandom)
+	c.Rule = fmt.Sprintf("all op sequences of length <= %d over {tget,tdel,bget,bdel,tput,bput}x{ka,kb}x{'',a,L} + tcommit/tdiscard from 3 initial ledgers (this part exhaustive), all sequences of exactly %d transaction-level ops on one key over {read, delete, put '', put a, put the ledger's own value, batch-level read, commit, discard} from 2 initial ledgers (exhaustive), all sequences of ops on one key with injected ledger-read faults (a failed read is an error for its caller and is remembered by nobody), plus %d random sequences (4..17 ops, 5 keys, 1/3 of ops revisit the previous key, occasional read faults); each history ends with the batch commit and a ledger dump; non-trivial = contains a write; distinct = distinct sha256 of op+output text", maxLen, depth1, nRandom)
 	c.Extra = map[string]any{"exhaustive_part_max_len": maxLen, "random_sequences": nRandom}
 }
